@@ -1255,6 +1255,17 @@ class Context:
                     raise NotImplementedError("time range loading not yet supported for superruns")
 
                 sub_run_spec = self.run_metadata(run_id, projection="sub_run_spec")["sub_run_spec"]
+                # define_run sorts the subruns by run start, but a storage
+                # frontend need not preserve the order of the keys (the
+                # DataDirectory writes its json files with sorted keys).
+                subrun_starts = {
+                    subrun: self.run_metadata(subrun, projection="start")["start"]
+                    for subrun in sub_run_spec
+                }
+                sub_run_spec = {
+                    subrun: sub_run_spec[subrun]
+                    for subrun in sorted(sub_run_spec, key=lambda x: subrun_starts[x])
+                }
 
                 # Make subruns if they do not exist.
                 self.make(
